@@ -18,7 +18,9 @@ import (
 	"sort"
 	"strconv"
 	"strings"
+	"time"
 
+	apicommon "github.com/enfein/mieru/v3/apis/common"
 	"github.com/enfein/mieru/v3/apis/trafficpattern"
 	"github.com/enfein/mieru/v3/pkg/appctl"
 	"github.com/enfein/mieru/v3/pkg/appctl/appctlcommon"
@@ -111,7 +113,88 @@ func tokUser(u *pb.User, out bool) string {
 			h = "H" + hx(pre)
 		}
 	}
-	return strings.Join([]string{ob(u.Name), ob(u.Password), h, vh.Hex(det(c))}, " ")
+	q := []string{strconv.Itoa(len(u.Quotas))}
+	for _, x := range u.Quotas {
+		q = append(q, strconv.Itoa(int(x.GetDays())), strconv.Itoa(int(x.GetMegabytes())))
+	}
+	return strings.Join([]string{ob(u.Name), ob(u.Password), h, strings.Join(q, " "), vh.Hex(det(c))}, " ")
+}
+
+func hb(s string) string { return vh.Hex([]byte(s)) }
+
+func tokAdv(isNil bool, m proto.Message, interval string) string {
+	if isNil {
+		return "N"
+	}
+	ns := "N"
+	if d, err := time.ParseDuration(interval); err == nil {
+		ns = "I" + strconv.FormatInt(int64(d), 10)
+	}
+	return strings.Join([]string{"A", vh.Hex(det(m)), hb(interval), ns}, " ")
+}
+
+func tokTp(tp *pb.TrafficPattern) string {
+	if tp == nil {
+		return "N"
+	}
+	return strings.Join([]string{"T", vh.Hex(det(tp)), b2(trafficpattern.Validate(tp) == nil)}, " ")
+}
+
+func tokEgress(e *pb.Egress) string {
+	if e == nil {
+		return "N"
+	}
+	f := []string{"E", vh.Hex(det(e)), strconv.Itoa(len(e.Proxies))}
+	for _, p := range e.Proxies {
+		f = append(f, hb(p.GetName()), strconv.Itoa(int(p.GetProtocol())), hb(p.GetHost()), strconv.Itoa(int(p.GetPort())),
+			hb(p.GetSocks5Authentication().GetUser()), hb(p.GetSocks5Authentication().GetPassword()))
+	}
+	f = append(f, strconv.Itoa(len(e.Rules)))
+	for _, ru := range e.Rules {
+		f = append(f, strconv.Itoa(len(ru.IpRanges)))
+		for _, ipr := range ru.IpRanges {
+			_, _, err := net.ParseCIDR(ipr)
+			f = append(f, b2(ipr == "*" || err == nil))
+		}
+		f = append(f, strconv.Itoa(len(ru.DomainNames)))
+		for _, d := range ru.DomainNames {
+			f = append(f, hb(d))
+		}
+		f = append(f, strconv.Itoa(int(ru.GetAction())), strconv.Itoa(len(ru.ProxyNames)))
+		for _, n := range ru.ProxyNames {
+			f = append(f, hb(n))
+		}
+	}
+	return strings.Join(f, " ")
+}
+
+func tokDNS(d *pb.DNS) string {
+	if d == nil {
+		return "N"
+	}
+	keys := make([]string, 0, len(d.Hosts))
+	for k := range d.Hosts {
+		keys = append(keys, k)
+	}
+	sort.Strings(keys)
+	f := []string{"D", vh.Hex(det(d)), strconv.Itoa(len(keys))}
+	for _, k := range keys {
+		f = append(f, hb(k), hb(apicommon.NormalizeDomainName(k)), b2(net.ParseIP(d.Hosts[k]) != nil))
+	}
+	return strings.Join(f, " ")
+}
+
+func tokEp(s *pb.ServerEndpoint) string {
+	return strings.Join([]string{hb(s.GetIpAddress()), b2(net.ParseIP(s.GetIpAddress()) != nil), hb(s.GetDomainName()),
+		b2(net.ParseIP(s.GetDomainName()) != nil), tokPBs(s.PortBindings)}, " ")
+}
+
+func tokDialer(d *pb.ClientDialer) string {
+	if d == nil {
+		return "N"
+	}
+	return strings.Join([]string{"Y", strconv.Itoa(int(d.GetProtocol())), hb(d.GetHost()), strconv.Itoa(int(d.GetPort())),
+		b2(d.Socks5Authentication != nil), hb(d.GetSocks5Authentication().GetUser()), hb(d.GetSocks5Authentication().GetPassword())}, " ")
 }
 
 func tokUsers(us []*pb.User, out bool) string {
@@ -152,8 +235,8 @@ func tokServer(c *pb.ServerConfig, out bool) string {
 		ports = "L " + tokPBs(c.PortBindings)
 	}
 	return strings.Join([]string{ports, tokUsers(c.Users, out),
-		omsg(c.AdvancedSettings == nil, c.AdvancedSettings), oenum(c.LoggingLevel), oi(c.Mtu),
-		omsg(c.Egress == nil, c.Egress), omsg(c.Dns == nil, c.Dns), omsg(c.TrafficPattern == nil, c.TrafficPattern)}, " ")
+		tokAdv(c.AdvancedSettings == nil, c.AdvancedSettings, c.GetAdvancedSettings().GetMetricsLoggingInterval()), oenum(c.LoggingLevel), oi(c.Mtu),
+		tokEgress(c.Egress), tokDNS(c.Dns), tokTp(c.TrafficPattern)}, " ")
 }
 
 func tokProfile(p *pb.ClientProfile, out bool) string {
@@ -163,7 +246,17 @@ func tokProfile(p *pb.ClientProfile, out bool) string {
 	if p.User != nil {
 		u = "U " + tokUser(p.User, out)
 	}
-	return strings.Join([]string{ob(p.ProfileName), u, vh.Hex(det(c))}, " ")
+	sv := []string{strconv.Itoa(len(p.Servers))}
+	for _, x := range p.Servers {
+		sv = append(sv, tokEp(x))
+	}
+	var mux *int32
+	if p.Multiplexing != nil && p.Multiplexing.Level != nil {
+		v := int32(p.Multiplexing.GetLevel())
+		mux = &v
+	}
+	return strings.Join([]string{ob(p.ProfileName), u, strings.Join(sv, " "), oi(p.Mtu), oi(mux), oenum(p.HandshakeMode),
+		tokTp(p.TrafficPattern), tokDialer(p.Dialer), vh.Hex(det(c))}, " ")
 }
 
 func tokClient(c *pb.ClientConfig, out bool) string {
@@ -175,11 +268,11 @@ func tokClient(c *pb.ClientConfig, out bool) string {
 	if c.Socks5Authentication != nil {
 		a := []string{"L", strconv.Itoa(len(c.Socks5Authentication))}
 		for _, x := range c.Socks5Authentication {
-			a = append(a, vh.Hex(det(x)))
+			a = append(a, vh.Hex(det(x)), hb(x.GetUser()), hb(x.GetPassword()))
 		}
 		auth = strings.Join(a, " ")
 	}
-	parts = append(parts, ob(c.ActiveProfile), oi(c.RpcPort), oi(c.Socks5Port), omsg(c.AdvancedSettings == nil, c.AdvancedSettings),
+	parts = append(parts, ob(c.ActiveProfile), oi(c.RpcPort), oi(c.Socks5Port), tokAdv(c.AdvancedSettings == nil, c.AdvancedSettings, c.GetAdvancedSettings().GetMetricsLoggingInterval()),
 		oenum(c.LoggingLevel), obool(c.Socks5ListenLAN), oi(c.HttpProxyPort), obool(c.HttpProxyListenLAN), auth)
 	return strings.Join(parts, " ")
 }
@@ -1500,10 +1593,380 @@ func portCases() {
 	}
 }
 
+// ---------------------------------------------------------------- validators (case kinds VS VP VC VK)
+
+var flatErrs = []string{"protocol is not set", "port number", "unknown protocol", "unable to parse port range", "unable to parse int", "begin of port range"}
+
+func hasAnyPrefix(m string, ps []string) bool {
+	for _, p := range ps {
+		if strings.HasPrefix(m, p) {
+			return true
+		}
+	}
+	return false
+}
+
+func serverCode(err error) string {
+	if err == nil {
+		return "0"
+	}
+	m := err.Error()
+	switch {
+	case hasAnyPrefix(m, flatErrs):
+		return "1"
+	case strings.HasPrefix(m, "user name is not set"):
+		return "21"
+	case strings.HasPrefix(m, "user password is not set"):
+		return "22"
+	case strings.HasPrefix(m, "user name exceeds"):
+		return "23"
+	case strings.HasPrefix(m, "user password exceeds"):
+		return "24"
+	case strings.HasPrefix(m, "quota: number of days") && strings.Contains(m, "exceeds maximum"):
+		return "26"
+	case strings.HasPrefix(m, "quota: number of days"):
+		return "25"
+	case strings.HasPrefix(m, "quota: traffic volume"):
+		return "27"
+	case strings.HasPrefix(m, "MTU value"):
+		return "3"
+	case strings.HasPrefix(m, "egress proxy"), strings.HasPrefix(m, "found duplicate egress proxy name"):
+		return "4"
+	case strings.HasPrefix(m, "egress rule"):
+		return "5"
+	case strings.HasPrefix(m, "invalid DNS configuration"):
+		return "6"
+	case strings.HasPrefix(m, "metrics logging interval"):
+		return "7"
+	case strings.HasPrefix(m, "invalid traffic pattern"):
+		return "8"
+	case strings.HasPrefix(m, "server config is empty"):
+		return "9"
+	case strings.HasPrefix(m, "server port binding is not set"):
+		return "10"
+	}
+	return "?" + m
+}
+
+func clientCode(err error) string {
+	if err == nil {
+		return "0"
+	}
+	m := err.Error()
+	table := []struct {
+		p string
+		c string
+	}{{"profile name is not set", "31"}, {"user name is not set", "32"}, {"user password is not set", "33"}, {"user name exceeds", "34"},
+		{"user password exceeds", "35"}, {"user quota is not supported", "36"}, {"servers are not set", "37"}, {"neither server IP", "38"},
+		{"failed to parse IP address", "39"}, {"server port binding is not set", "40"}, {"MTU value", "42"}, {"invalid traffic pattern", "43"},
+		{"client profile dialer", "44"}, {"socks5 authentication", "51"}, {"metrics logging interval", "52"}, {"profiles are not set", "53"},
+		{"active profile is not set", "54"}, {"active profile is not found", "55"}, {"HTTP proxy port number", ""}, {"RPC port number", ""}, {"socks5 port number", "57"}}
+	if hasAnyPrefix(m, flatErrs) {
+		return "41"
+	}
+	for _, t := range table {
+		if strings.HasPrefix(m, t.p) {
+			switch t.p {
+			case "RPC port number":
+				if strings.Contains(m, "is the same") {
+					return "58"
+				}
+				return "56"
+			case "HTTP proxy port number":
+				if strings.Contains(m, "same as RPC") {
+					return "60"
+				}
+				if strings.Contains(m, "same as socks5") {
+					return "61"
+				}
+				return "59"
+			}
+			return t.c
+		}
+	}
+	return "?" + m
+}
+
+func vServer(c *pb.ServerConfig) {
+	var e1, e2 error
+	if guard("ValidateFullServerConfig", jsonOf(c), func() { e1 = appctl.ValidateFullServerConfig(c); e2 = appctl.ValidateServerConfigPatch(c) }) {
+		return
+	}
+	t := tokServer(c, false)
+	r.Case("VS "+t, serverCode(e1))
+	r.Case("VP "+t, serverCode(e2))
+	r.Count("V-server")
+	r.Distinct("vs-" + serverCode(e1))
+}
+
+func vClient(c *pb.ClientConfig) {
+	var e1, e2 error
+	if guard("ValidateFullClientConfig", jsonOf(c), func() { e1 = appctl.ValidateFullClientConfig(c); e2 = appctl.ValidateClientConfigPatch(c) }) {
+		return
+	}
+	t := tokClient(c, false)
+	r.Case("VC "+t, clientCode(e1))
+	r.Case("VK "+t, clientCode(e2))
+	r.Count("V-client")
+	r.Distinct("vc-" + clientCode(e1))
+}
+
+func rep(c string, n int) *string { return proto.String(strings.Repeat(c, n)) }
+
+func firstUser(c *pb.ServerConfig) *pb.User {
+	if len(c.Users) == 0 {
+		c.Users = []*pb.User{{Name: proto.String("u0"), Password: proto.String("pwAAAAAA")}}
+	}
+	return c.Users[0]
+}
+
+func firstEgress(c *pb.ServerConfig) *pb.EgressProxy {
+	c.Egress = &pb.Egress{Proxies: []*pb.EgressProxy{{Name: proto.String("px"), Protocol: pb.ProxyProtocol_SOCKS5_PROXY_PROTOCOL.Enum(), Host: proto.String("h"), Port: proto.Int32(1080)}}}
+	return c.Egress.Proxies[0]
+}
+
+func serverBoundaries() []func(*pb.ServerConfig) {
+	var ms []func(*pb.ServerConfig)
+	add := func(f func(*pb.ServerConfig)) { ms = append(ms, f) }
+	for _, n := range []int{0, 1, 63, 64, 65, 200} {
+		n := n
+		add(func(c *pb.ServerConfig) { firstUser(c).Name = rep("n", n) })
+		add(func(c *pb.ServerConfig) { firstUser(c).Password = rep("p", n) })
+		add(func(c *pb.ServerConfig) { u := firstUser(c); u.Password = rep("p", n); u.HashedPassword = nil })
+	}
+	add(func(c *pb.ServerConfig) { u := firstUser(c); u.Password = nil; u.HashedPassword = nil })
+	add(func(c *pb.ServerConfig) { u := firstUser(c); u.Password = nil; u.HashedPassword = proto.String("00") })
+	for _, d := range []int32{-1, 0, 1, 106750, 106751, 106752, 2147483647, -2147483648} {
+		d := d
+		add(func(c *pb.ServerConfig) {
+			firstUser(c).Quotas = []*pb.Quota{{Days: proto.Int32(d), Megabytes: proto.Int32(1)}}
+		})
+		add(func(c *pb.ServerConfig) {
+			firstUser(c).Quotas = []*pb.Quota{{Days: proto.Int32(1), Megabytes: proto.Int32(d)}}
+		})
+		add(func(c *pb.ServerConfig) {
+			firstUser(c).Quotas = []*pb.Quota{{Days: proto.Int32(1), Megabytes: proto.Int32(1)}, {Days: proto.Int32(d), Megabytes: proto.Int32(0)}}
+		})
+	}
+	add(func(c *pb.ServerConfig) { firstUser(c).Quotas = []*pb.Quota{{}} })
+	for _, m := range []int32{-1, 0, 1, 1279, 1280, 1281, 1499, 1500, 1501, 65535} {
+		m := m
+		add(func(c *pb.ServerConfig) { c.Mtu = proto.Int32(m) })
+	}
+	for _, p := range []int32{-1, 0, 1, 65535, 65536, 2147483647} {
+		p := p
+		add(func(c *pb.ServerConfig) {
+			c.PortBindings = []*pb.PortBinding{{Port: proto.Int32(p), Protocol: pb.TransportProtocol_TCP.Enum()}}
+		})
+		add(func(c *pb.ServerConfig) { firstEgress(c).Port = proto.Int32(p) })
+	}
+	for _, rg := range []string{"1-65535", "0-1", "2-1", "1-65536", "65535-65535", "", "5", "1-2-3", "+1-2"} {
+		rg := rg
+		add(func(c *pb.ServerConfig) {
+			c.PortBindings = []*pb.PortBinding{{PortRange: proto.String(rg), Protocol: pb.TransportProtocol_UDP.Enum()}}
+		})
+	}
+	for _, pr := range []int32{0, 1, 2, 3} {
+		pr := pr
+		add(func(c *pb.ServerConfig) {
+			c.PortBindings = []*pb.PortBinding{{Port: proto.Int32(5), Protocol: pb.TransportProtocol(pr).Enum()}}
+		})
+		add(func(c *pb.ServerConfig) { firstEgress(c).Protocol = pb.ProxyProtocol(pr).Enum() })
+	}
+	add(func(c *pb.ServerConfig) { c.PortBindings = nil })
+	add(func(c *pb.ServerConfig) { c.PortBindings = []*pb.PortBinding{} })
+	add(func(c *pb.ServerConfig) { proto.Reset(c) })
+	add(func(c *pb.ServerConfig) { proto.Reset(c); c.Mtu = proto.Int32(0) })
+	add(func(c *pb.ServerConfig) {
+		proto.Reset(c)
+		c.Users = []*pb.User{{Name: proto.String("a"), Password: proto.String("b")}}
+	})
+	add(func(c *pb.ServerConfig) { firstEgress(c).Name = proto.String("") })
+	add(func(c *pb.ServerConfig) { firstEgress(c).Host = proto.String("") })
+	add(func(c *pb.ServerConfig) {
+		p := firstEgress(c)
+		c.Egress.Proxies = append(c.Egress.Proxies, proto.Clone(p).(*pb.EgressProxy))
+	})
+	add(func(c *pb.ServerConfig) { firstEgress(c).Socks5Authentication = &pb.Auth{User: proto.String("u")} })
+	add(func(c *pb.ServerConfig) { firstEgress(c).Socks5Authentication = &pb.Auth{Password: proto.String("p")} })
+	add(func(c *pb.ServerConfig) {
+		firstEgress(c).Socks5Authentication = &pb.Auth{User: proto.String("u"), Password: proto.String("p")}
+	})
+	add(func(c *pb.ServerConfig) { firstEgress(c).Socks5Authentication = &pb.Auth{} })
+	rule := func(ru *pb.EgressRule) func(*pb.ServerConfig) {
+		return func(c *pb.ServerConfig) { firstEgress(c); c.Egress.Rules = []*pb.EgressRule{ru} }
+	}
+	add(rule(&pb.EgressRule{IpRanges: []string{"bad"}, Action: pb.EgressAction_DIRECT.Enum()}))
+	add(rule(&pb.EgressRule{IpRanges: []string{"*", "10.0.0.0/8"}, Action: pb.EgressAction_REJECT.Enum()}))
+	add(rule(&pb.EgressRule{IpRanges: []string{"10.0.0.1"}, Action: pb.EgressAction_REJECT.Enum()}))
+	for _, d := range []string{"", ".", ".a", "a.", "a", "*", "a..b"} {
+		add(rule(&pb.EgressRule{DomainNames: []string{d}, Action: pb.EgressAction_DIRECT.Enum()}))
+	}
+	add(rule(&pb.EgressRule{Action: pb.EgressAction_PROXY.Enum()}))
+	add(rule(&pb.EgressRule{}))
+	add(rule(&pb.EgressRule{ProxyNames: []string{"px"}}))
+	add(rule(&pb.EgressRule{Action: pb.EgressAction_PROXY.Enum(), ProxyNames: []string{"px"}}))
+	add(rule(&pb.EgressRule{Action: pb.EgressAction_PROXY.Enum(), ProxyNames: []string{"px", "nope"}}))
+	add(rule(&pb.EgressRule{Action: pb.EgressAction_DIRECT.Enum(), ProxyNames: []string{"px"}}))
+	for _, h := range []map[string]string{{".a": "1.2.3.4"}, {"a.": "1.2.3.4"}, {"": "1.2.3.4"}, {"A.example": "1.2.3.4", "a.example": "1.2.3.4"},
+		{"a.example": "nope"}, {"a.example": ""}, {"a.example": "::1", "b.example": "1.2.3.4"}, {}} {
+		h := h
+		add(func(c *pb.ServerConfig) { c.Dns = &pb.DNS{Hosts: h} })
+	}
+	for _, iv := range []string{"", "999ms", "1s", "1000ms", "999999999ns", "x", "1", "-5s", "1h"} {
+		iv := iv
+		add(func(c *pb.ServerConfig) {
+			c.AdvancedSettings = &pb.ServerAdvancedSettings{MetricsLoggingInterval: proto.String(iv)}
+		})
+	}
+	add(func(c *pb.ServerConfig) {
+		c.TrafficPattern = &pb.TrafficPattern{Nonce: &pb.NoncePattern{MinLen: proto.Int32(13)}}
+	})
+	add(func(c *pb.ServerConfig) { c.TrafficPattern = &pb.TrafficPattern{} })
+	return ms
+}
+
+func firstProfile(c *pb.ClientConfig) *pb.ClientProfile { return c.Profiles[0] }
+
+func clientBoundaries() []func(*pb.ClientConfig) {
+	var ms []func(*pb.ClientConfig)
+	add := func(f func(*pb.ClientConfig)) { ms = append(ms, f) }
+	add(func(c *pb.ClientConfig) { firstProfile(c).ProfileName = proto.String("") })
+	add(func(c *pb.ClientConfig) { firstProfile(c).User = nil })
+	for _, n := range []int{0, 1, 64, 65} {
+		n := n
+		add(func(c *pb.ClientConfig) { firstProfile(c).User.Name = rep("n", n) })
+		add(func(c *pb.ClientConfig) { firstProfile(c).User.Password = rep("p", n) })
+		add(func(c *pb.ClientConfig) { u := firstProfile(c).User; u.Password = rep("p", n); u.HashedPassword = nil })
+	}
+	add(func(c *pb.ClientConfig) {
+		firstProfile(c).User.Quotas = []*pb.Quota{{Days: proto.Int32(1), Megabytes: proto.Int32(1)}}
+	})
+	add(func(c *pb.ClientConfig) { firstProfile(c).Servers = nil })
+	add(func(c *pb.ClientConfig) { s := firstProfile(c).Servers[0]; s.IpAddress, s.DomainName = nil, nil })
+	add(func(c *pb.ClientConfig) { s := firstProfile(c).Servers[0]; s.IpAddress = proto.String("bad") })
+	add(func(c *pb.ClientConfig) {
+		s := firstProfile(c).Servers[0]
+		s.IpAddress = proto.String("bad")
+		s.DomainName = proto.String("d.example")
+	})
+	add(func(c *pb.ClientConfig) { firstProfile(c).Servers[0].PortBindings = nil })
+	for _, p := range []int32{-1, 0, 1, 65535, 65536} {
+		p := p
+		add(func(c *pb.ClientConfig) {
+			firstProfile(c).Servers[0].PortBindings = []*pb.PortBinding{{Port: proto.Int32(p), Protocol: pb.TransportProtocol_TCP.Enum()}}
+		})
+		add(func(c *pb.ClientConfig) { c.RpcPort = proto.Int32(p) })
+		add(func(c *pb.ClientConfig) { c.Socks5Port = proto.Int32(p) })
+		add(func(c *pb.ClientConfig) { c.HttpProxyPort = proto.Int32(p) })
+		add(func(c *pb.ClientConfig) {
+			firstProfile(c).Dialer = &pb.ClientDialer{Protocol: pb.ProxyProtocol_SOCKS5_PROXY_PROTOCOL.Enum(), Host: proto.String("h"), Port: proto.Int32(p)}
+		})
+	}
+	add(func(c *pb.ClientConfig) { c.RpcPort = proto.Int32(c.GetSocks5Port()) })
+	add(func(c *pb.ClientConfig) { c.RpcPort = nil; c.Socks5Port = nil })
+	add(func(c *pb.ClientConfig) { c.HttpProxyPort = proto.Int32(c.GetSocks5Port()) })
+	add(func(c *pb.ClientConfig) { c.RpcPort = proto.Int32(8000); c.HttpProxyPort = proto.Int32(8000) })
+	for _, m := range []int32{-1, 0, 1279, 1280, 1500, 1501} {
+		m := m
+		add(func(c *pb.ClientConfig) { firstProfile(c).Mtu = proto.Int32(m) })
+	}
+	add(func(c *pb.ClientConfig) {
+		firstProfile(c).TrafficPattern = &pb.TrafficPattern{Nonce: &pb.NoncePattern{MinLen: proto.Int32(13)}}
+	})
+	add(func(c *pb.ClientConfig) { firstProfile(c).Dialer = &pb.ClientDialer{} })
+	add(func(c *pb.ClientConfig) {
+		firstProfile(c).Dialer = &pb.ClientDialer{Protocol: pb.ProxyProtocol_SOCKS5_PROXY_PROTOCOL.Enum(), Port: proto.Int32(5)}
+	})
+	for _, a := range []*pb.Auth{{}, {User: proto.String("u")}, {Password: proto.String("p")}, {User: proto.String("u"), Password: proto.String("p")}} {
+		a := a
+		add(func(c *pb.ClientConfig) {
+			firstProfile(c).Dialer = &pb.ClientDialer{Protocol: pb.ProxyProtocol_SOCKS5_PROXY_PROTOCOL.Enum(), Host: proto.String("h"), Port: proto.Int32(5), Socks5Authentication: a}
+		})
+		add(func(c *pb.ClientConfig) { c.Socks5Authentication = []*pb.Auth{a} })
+	}
+	for _, iv := range []string{"", "999ms", "1s", "x"} {
+		iv := iv
+		add(func(c *pb.ClientConfig) {
+			c.AdvancedSettings = &pb.ClientAdvancedSettings{MetricsLoggingInterval: proto.String(iv)}
+		})
+	}
+	add(func(c *pb.ClientConfig) { c.Profiles = nil })
+	add(func(c *pb.ClientConfig) { c.ActiveProfile = nil })
+	add(func(c *pb.ClientConfig) { c.ActiveProfile = proto.String("") })
+	add(func(c *pb.ClientConfig) { c.ActiveProfile = proto.String(c.GetActiveProfile() + "x") })
+	add(func(c *pb.ClientConfig) { proto.Reset(c) })
+	return ms
+}
+
+func validatorCases(n int) {
+	sb, cb := serverBoundaries(), clientBoundaries()
+	for i := 0; i < n; i++ {
+		base := genServer(true)
+		vServer(base)
+		vServer(genServer(false))
+		for k := 0; k < len(sb); k++ {
+			if i > 0 && r.Rng.Intn(8) != 0 {
+				continue
+			}
+			c := proto.Clone(base).(*pb.ServerConfig)
+			sb[k](c)
+			vServer(c)
+		}
+		cbase := genClient(true, nil)
+		vClient(cbase)
+		vClient(genClient(false, nil))
+		for k := 0; k < len(cb); k++ {
+			if i > 0 && r.Rng.Intn(8) != 0 {
+				continue
+			}
+			c := proto.Clone(cbase).(*pb.ClientConfig)
+			cb[k](c)
+			vClient(c)
+		}
+	}
+}
+
+// witnessChecks replays on the real code the witnesses of the _refuted theorems (informational: recorded in
+// the report's notes; the two merge witnesses must be REJECTED by Apply, which re-validates after merging).
+func witnessChecks() {
+	r.Rep.Notes = map[string]string{}
+	// valid client + valid patch {socks5Port: 70000} -> merged invalid; applyClientConfig must refuse and keep the file
+	old := &pb.ClientConfig{ActiveProfile: proto.String("p"), RpcPort: proto.Int32(8964), Socks5Port: proto.Int32(1080),
+		Profiles: []*pb.ClientProfile{{ProfileName: proto.String("p"), User: &pb.User{Name: proto.String("u"), Password: proto.String("pwWITNESS")},
+			Servers: []*pb.ServerEndpoint{{IpAddress: proto.String("1.2.3.4"), PortBindings: []*pb.PortBinding{{Port: proto.Int32(2012), Protocol: pb.TransportProtocol_TCP.Enum()}}}}}}}
+	before := storeLoadClient(proto.Clone(old).(*pb.ClientConfig), true, false)
+	for name, patch := range map[string]*pb.ClientConfig{"socks5Port=70000": {Socks5Port: proto.Int32(70000)}, "activeProfile=q": {ActiveProfile: proto.String("q")}} {
+		if appctl.ValidateClientConfigPatch(patch) != nil {
+			r.Fail("witness-patch-not-valid", "the model's witness patch is rejected by ValidateClientConfigPatch: "+name, name)
+			continue
+		}
+		link, _ := appctl.ClientConfigToURL(patch)
+		var err error
+		guard("ApplyURLClientConfig", name, func() { err = appctl.ApplyURLClientConfig(link) })
+		after, _ := appctl.LoadClientConfig()
+		if err == nil || !proto.Equal(before, after) {
+			r.Fail("invalid-merge-stored", "a valid patch that makes the configuration invalid was applied or changed the stored file: "+name, name)
+		}
+		r.Rep.Notes["client-merge-witness "+name] = fmt.Sprintf("valid patch, merged configuration invalid, Apply returned: %v; stored file unchanged", err)
+	}
+	// validated profile whose binding has both a port and a garbage range: exported by the range, import fails
+	amb := proto.Clone(old.Profiles[0]).(*pb.ClientProfile)
+	amb.Servers[0].PortBindings[0].PortRange = proto.String("x")
+	verr := appctlcommon.ValidateClientConfigSingleProfile(amb)
+	links, eerr := appctl.ClientProfileToMultiURLs(amb)
+	var ierr error
+	if len(links) > 0 {
+		guard("URLToClientProfile", links[0], func() { _, ierr = appctl.URLToClientProfile(links[0]) })
+	}
+	r.Rep.Notes["ambiguous-binding-witness"] = fmt.Sprintf("profile with binding {port:2012, portRange:\"x\"}: validate=%v export=%v links=%v import=%v", verr, eerr, links, ierr)
+	r.Count("witness-checks")
+}
+
 func main() {
 	r = vh.Start("c20")
 	defer r.Finish()
-	r.Rep.Rule = "corpus first (mieru: , mieru:/ and every truncation of the link prefixes); then generated valid server and client configurations and patches (users with plaintext / hashed / both passwords, quotas, ports and port ranges, egress proxies and rules, DNS hosts, traffic patterns, every optional field independently set or unset, names and passwords drawn from an alphabet of space % # ? @ : / & = + quotes backslash unicode) through merge, Store/Load/Apply in both file formats (path chosen via the environment variables and via the cached package variables) and through both link forms; mutated links, mutated JSON and arbitrary bytes to the parsers; boundary and random port-range / integer texts. Non-trivial/distinct = distinct (operation, file format, set of fields set, list sizes) tuples and distinct (parser outcome stage, input length class) pairs"
+	r.Rep.Rule = "corpus first (mieru: , mieru:/ and every truncation of the link prefixes); then generated valid server and client configurations and patches (users with plaintext / hashed / both passwords, quotas, ports and port ranges, egress proxies and rules, DNS hosts, traffic patterns, every optional field independently set or unset, names and passwords drawn from an alphabet of space % # ? @ : / & = + quotes backslash unicode) through merge, Store/Load/Apply in both file formats (path chosen via the environment variables and via the cached package variables) and through both link forms; mutated links, mutated JSON and arbitrary bytes to the parsers; boundary and random port-range / integer texts; the validators on generated configurations and on every bound perturbed to both sides (name and password lengths, quota days incl. the time.Duration bound, MTU, ports, egress proxies and rules, DNS hosts, metrics interval, client ports and active profile). Non-trivial/distinct = distinct (operation, file format, set of fields set, list sizes) tuples and distinct (parser outcome stage, input length class) pairs"
 	tmp = filepath.Join(r.Out, "cfgtmp")
 	os.RemoveAll(tmp)
 	os.MkdirAll(tmp, 0o755)
@@ -1555,6 +2018,12 @@ func main() {
 
 	jsonMalformed(nJSON)
 	portCases()
+	nV := 6
+	if r.Thorough() {
+		nV = 150
+	}
+	validatorCases(nV)
+	witnessChecks()
 }
 
 func imin(a, b int) int {
